@@ -157,73 +157,6 @@ func probeEmbeddedReopen() (bool, string) {
 
 func entriesOf(k, v string) []stx.Entry { return []stx.Entry{{Key: []byte(k), Value: []byte(v)}} }
 
-// probeDiscardReopen: transactions precommitted after a DiscardPrecommittedTxsSince do not survive close+reopen
-// (the discarded records stay in front of them in the tx log and are reloaded instead).
-func probeDiscardReopen() (bool, string) {
-	dir := vk.Dir()
-	defer os.RemoveAll(dir)
-	p, err := store.Open(dir+"/p", probeOpts())
-	if err != nil {
-		return false, ""
-	}
-	defer p.Close()
-	ropts := func() *store.Options { return probeOpts().WithExternalCommitAllowance(true) }
-	r, err := store.Open(dir+"/r", ropts())
-	if err != nil {
-		return false, ""
-	}
-	ctx := context.Background()
-	holder := store.NewTx(16, 64)
-	var blobs [][]byte
-	for i := 0; i < 4; i++ {
-		hdr, err := commitTx(p, entriesOf(fmt.Sprintf("k%d", i), fmt.Sprintf("value-%d", i)), nil)
-		if err != nil {
-			r.Close()
-			return false, ""
-		}
-		b, err := p.ExportTx(hdr.ID, false, false, holder)
-		if err != nil {
-			r.Close()
-			return false, ""
-		}
-		blobs = append(blobs, b)
-	}
-	rep := func(ids ...int) bool {
-		for _, i := range ids {
-			if _, err := r.ReplicateTx(ctx, blobs[i-1], false, false); err != nil {
-				return false
-			}
-		}
-		return true
-	}
-	if !rep(1, 2, 3) {
-		r.Close()
-		return false, ""
-	}
-	if _, err := r.DiscardPrecommittedTxsSince(2); err != nil {
-		r.Close()
-		return false, ""
-	}
-	if !rep(2, 3, 4) {
-		r.Close()
-		return false, ""
-	}
-	before, _ := r.PrecommittedAlh()
-	if err := r.Close(); err != nil {
-		return false, ""
-	}
-	r, err = store.Open(dir+"/r", ropts())
-	if err != nil {
-		return true, "reopen of the replica failed: " + err.Error()
-	}
-	defer r.Close()
-	after, _ := r.PrecommittedAlh()
-	if after < before {
-		return true, fmt.Sprintf("replica (external commit allowance): txs 1-3 replicated, DiscardPrecommittedTxsSince(2), txs 2-4 replicated (precommitted id %d); after Close+Open the precommitted id is %d", before, after)
-	}
-	return false, ""
-}
-
 // probeStaleBlRoot: tx 1 precommitted again after DiscardPrecommittedTxsSince(1) is stored with the BlRoot left in the
 // pooled tx holder by an earlier transaction (performPrecommit sets BlRoot only when BlTxID > 0).
 func probeStaleBlRoot() (bool, string) {
